@@ -413,6 +413,27 @@ class Sim(object):
                 continue
             if until is not None and self.now >= until:
                 return 'until'
+            # spin breaker: code which polls the clock in a busy loop (without
+            # sleeping) is always runnable; in reality real time passes while
+            # it spins.  If nothing observable happened for SPIN_LIMIT steps
+            # at the same virtual instant, let time pass to the next deadline.
+            if self.now == self._spin_now and \
+                    len(self.events) == self._spin_ev:
+                self._spin_cnt += 1
+                if self._spin_cnt > self.SPIN_LIMIT:
+                    dls = [t.deadline for t in self.threads
+                           if t.state == BLOCKED and t.deadline is not None
+                           and t.deadline > self.now
+                           and not (t.frozen and t.what == 'sleep')]
+                    self._spin_cnt = 0
+                    if dls:
+                        self.probe('spin_break')
+                        self.now = min(dls)
+                        continue
+            else:
+                self._spin_now = self.now
+                self._spin_ev  = len(self.events)
+                self._spin_cnt = 0
             if len(runnable) == 1:
                 t = runnable[0]
             else:
@@ -434,6 +455,11 @@ class Sim(object):
     # need it install `ctx_hooks` = list of (save(proc), restore(proc))
     ctx_hooks = ()
 
+    SPIN_LIMIT = 400
+    _spin_now  = None
+    _spin_ev   = -1
+    _spin_cnt  = 0
+
     def _ctx_switch(self, old, new):
         for save, restore in self.ctx_hooks:
             if old is not None:
@@ -443,7 +469,12 @@ class Sim(object):
     # --------------------------------------------------------------------------
     #
     def kill_threads(self, threads):
-        '''terminate the given threads at their next (= current) yield point'''
+        '''terminate the given threads at their next (= current) yield point.
+        Called from a sim thread (e.g. Process.terminate) the victims are only
+        marked and made runnable: they die when the kernel schedules them
+        next.  Called from the kernel thread (teardown) they are driven to
+        their end right away.'''
+        nested = self.in_sim_thread()
         for t in threads:
             if t.state in (DONE,):
                 continue
@@ -453,15 +484,20 @@ class Sim(object):
             if t.state == NEW:
                 t.state = DONE
                 continue
+            if nested:
+                t.state    = READY
+                t.pred     = None
+                t.deadline = None
+                t.frozen   = False
+                continue
             # run it until it is gone
             guard = 0
-            prev  = self.current
             while t.state != DONE and guard < 200:
                 guard += 1
                 self.current = t
                 t.go.release()
                 self.back.acquire()
-            self.current = prev
+            self.current = None
 
     def freeze(self, substr):
         '''never schedule threads whose name contains `substr`'''
